@@ -155,3 +155,13 @@ claim("C01", "exploration",
       "from a SystemInfo (busy cores, dead chips/links, tiny free router blocks) incl. one probed from the simulated machine.",
       "Hardware routing semantics (first match, default routing) restated in /verif; graphs <= 4 vertices; machines <= 3x3.",
       "DESIGN.md section 4, C01")
+claim("C17", "model_checking",
+      "A freshly started server interpreter forks one child per history: every sequence of <=2 (thorough: 3 over a reduced alphabet) calls "
+      "from an alphabet of 32 library calls with differing arguments (all placers incl. both annealing kernels, allocate, route x radii, "
+      "table generation, each minimiser with/without target incl. alias-sensitive tables, bit fields with shared tag sets, machine "
+      "controllers with nested contexts, boot with three option styles, the deprecated wrapper, Machine defaults) followed by a probe call; "
+      "the probe's result must equal its result as the first call of a fresh interpreter, deep snapshots of every argument before/after "
+      "each call must agree, the hexagon memo must equal a fresh computation; the introspected hidden mutable state (default arguments, "
+      "module globals, class attributes) identifies the states of the search.",
+      "Reference = first-call result in a fresh interpreter; seeded generators are part of each probe.",
+      "DESIGN.md section 4, C17")
